@@ -72,7 +72,7 @@ var portCounter int
 // freePort picks a currently free port from a range private to this process, so that parallel driver processes do
 // not hand the same port to two relays between the probe and the relay's own bind.
 func freePort() int {
-	base := 20000 + (os.Getpid()%300)*100
+	base := 10000 + (os.Getpid()%220)*100 // below the kernel's ephemeral range (32768..), which other sockets draw from
 	for i := 0; i < 100; i++ {
 		portCounter++
 		p := base + portCounter%100
@@ -389,6 +389,11 @@ func runCase(t *testing.T, tc tcase, res *vio.Result) {
 					fail("tcp.relay/target-not-dialled", fmt.Sprintf("the relay did not connect to the routed target (handshake: %v) %s", dialErr, r.LogTail(3)), si, target, nil)
 					return
 				}
+				// the target's kernel completes the connection before the relay's goroutine has seen its connect() succeed; a reset
+				// sent in that window would make the relay's dial itself fail. Go on only once the relay has started copying.
+				for dl := time.Now().Add(stepTimeout); r.CountLogs("Bidirectional copy started") == 0 && time.Now().Before(dl); {
+					time.Sleep(time.Millisecond)
+				}
 				if !needClient(si) {
 					fail("tcp.relay/success-not-reported", fmt.Sprintf("the onward connection succeeded but the client handshake failed: %v", dialErr), si, "ok", fmt.Sprint(dialErr))
 					return
@@ -462,7 +467,7 @@ func runCase(t *testing.T, tc tcase, res *vio.Result) {
 				time.Sleep(5 * time.Millisecond)
 			}
 			if got == nil || fmt.Sprint(got["tcpSessions"]) != "1" {
-				fail("tcp.relay/stats-missing", "the session was not recorded in the server's statistics", si, want, got)
+				fail("tcp.relay/stats-missing", "the session was not recorded in the server's statistics", si, want, map[string]any{"stats": got, "relay_log_tail": r.LogTail(6), "goroutines": relayenv.Goroutines("service.(*TCPRelay)", "netio.BidirectionalCopy")})
 			} else if fmt.Sprint(got["uplinkBytes"]) != fmt.Sprint(want[0]) || fmt.Sprint(got["downlinkBytes"]) != fmt.Sprint(want[1]) {
 				fail("tcp.relay/stats-mismatch", "the byte counts handed to statistics differ from the bytes delivered each way", si, want, [2]any{got["uplinkBytes"], got["downlinkBytes"]})
 			}
